@@ -46,7 +46,7 @@ PLACES = ['other_var', 'own_var', 'cashflow_eqn', 'product_term', 'cashflow_prod
 POINTS = ['early', 'late', 'postcodes']
 VARS = ['Q', 'F', 'INC']
 SRCS = ['HH', 'GOV']
-CONFIGS = ['one', 'two', 'ext', 'late_country', 'late_ext']
+CONFIGS = ['one', 'two', 'ext', 'late_country', 'late_ext', 'other_model']
 
 
 def units(tier):
@@ -225,6 +225,10 @@ def build_history(config, point, var, src, places):
             if point == 'early':
                 request()
     for code in ('GOV', 'HH', 'BUS', 'TF', 'LAB', 'GOOD'):
+        if config == 'other_model' and code == 'BUS':
+            # an unrelated model is started while this one is still being declared
+            m_other = Model()
+            Household(Country(m_other, 'QQ'), 'HH')
         declare(code)
     if config == 'two':
         zz = Country(m, 'ZZ')
